@@ -194,7 +194,7 @@ func main() {
 					e = append(e, "residue-filled="+t.Name)
 				}
 				for _, r := range t.Rows {
-					e = append(e, "ok="+t.Name+"."+r.Method)
+					e = append(e, "ok="+t.Name+"."+r.Method, "nonzero-result="+t.Name+"."+r.Method)
 				}
 			}
 			return e
